@@ -164,7 +164,9 @@ type plan struct {
 }
 
 var (
-	initsQuick    = []string{"i-none", "i-a5-bu", "i-amap", "i-anull"}
+	// quick: the empty install is left to the thorough tier (the empty record is still reached by reset-values with no values)
+	initsQuick    = []string{"i-a5-bu", "i-amap", "i-anull"}
+	initsFour     = []string{"i-none", "i-a5-bu", "i-amap", "i-anull"}
 	initsThorough = []string{"i-none", "i-a5-bu", "i-amap", "i-anull", "i2-a5-bu", "i2-amap"}
 )
 
@@ -172,10 +174,10 @@ func plans(tier string) []plan {
 	vals7 := append(append([]namedVals{}, stepValues...), stepValuesThorough...)
 	if tier == "thorough" {
 		return []plan{
-			{"mem-len3-allcharts", []string{"memory"}, 3, initsQuick, vals7, "all", true},
+			{"mem-len3-allcharts", []string{"memory"}, 3, initsFour, vals7, "all", true},
 			{"mem-len4-nextchart", []string{"memory"}, 4, initsThorough, stepValues, "next", true},
-			{"sec-len3-same+next", []string{"secrets"}, 3, initsQuick, stepValues, "same,next", true},
-			{"sec-len4-nextchart", []string{"secrets"}, 4, []string{"i-a5-bu", "i-amap"}, stepValues, "next", false},
+			{"sec-len3-same+next", []string{"secrets"}, 3, initsFour, stepValues, "same,next", true},
+			{"sec-len4-nextchart", []string{"secrets"}, 4, []string{"i-a5-bu"}, stepValues, "next", false},
 		}
 	}
 	return []plan{
@@ -876,6 +878,12 @@ func evaluate(t *opspace.Transition) (v verdict) {
 	return v
 }
 
+// cache of the canonical hash of the pre-state last seen by apply (one worker = one goroutine)
+var (
+	canonOf   *hx.World
+	canonHash uint64
+)
+
 // apply books a verdict into the run's counters. perKey (nil in replays)
 // counts the violations of a key seen by this worker: the first two of every
 // key are minimised before they are recorded.
@@ -890,7 +898,11 @@ func apply(c *core.Ctx, t *opspace.Transition, v verdict, tier string, perKey ma
 		c.Outcome(v.Outcome)
 	}
 	if v.Counted {
-		c.Distinct(t.Pre.Canon() + "|" + t.Step.String())
+		// all steps out of one state share the pre-world: canonicalise it once
+		if t.Pre != canonOf {
+			canonOf, canonHash = t.Pre, core.Hash64(t.Pre.Canon())
+		}
+		c.Distinct(fmt.Sprintf("%x|%s", canonHash, t.Step.String()))
 	}
 	for _, f := range v.Floors {
 		c.Floor(f)
@@ -929,13 +941,20 @@ func lastFinding(r opspace.Replay, key string) (finding, bool) {
 // yields a finding with the same key.
 func minimise(r opspace.Replay, f finding) (opspace.Replay, string) {
 	what := f.What
-	// shortest first: the failing step alone after each install
-	if len(r.Path) > 1 {
+	// shortest first: the last 1, 2, ... steps after each install
+	suffix := r
+	var suffixes []opspace.Replay
+	for len(suffix.Path) > 1 {
+		next, ok := dropStep(suffix, 0)
+		if !ok {
+			break
+		}
+		suffix = next
+		suffixes = append([]opspace.Replay{suffix}, suffixes...)
+	}
+	for _, sfx := range suffixes {
 		for _, init := range initsThorough {
-			cand := opspace.Replay{Driver: r.Driver, Init: init, Path: r.Path[len(r.Path)-1:]}
-			if cand.Path[0].Op.Kind == "rollback" {
-				break
-			}
+			cand := opspace.Replay{Driver: r.Driver, Init: init, Path: sfx.Path}
 			if nf, hit := lastFinding(cand, f.Key); hit {
 				return cand, nf.What
 			}
